@@ -1096,10 +1096,22 @@ def runOps (s : AstStore.Store) : List AstStore.Op → Except Err AstStore.Store
     | (_, .throw) => .error (.internal "ast-cycle")
     | (_, .hang) => .error .hang
 
+/-- `setTypes(tokenList)`: for every token between `sizeof (` and the next `)` that has no `type()`, `typeToken->type(findType(..))`
+    stores into the union that also holds the Variable / Function / Enumerator pointer: those links are lost (the varId stays).
+    `fixed = true` models the repaired loop that leaves linked tokens alone.  Returns the live-token indices that lose their link. -/
+def sizeofScan : Bool → List (Nat × Tok) → List Nat
+  | _, [] => []
+  | true, (i, t) :: r => if t.str == [')'] then sizeofScan false r else i :: sizeofScan true r
+  | false, [_] => []
+  | false, (_, t) :: (j, u) :: r =>
+    if t.str == "sizeof".toList && u.str == ['('] then sizeofScan true r else sizeofScan false ((j, u) :: r)
+
+def sizeofCleared (live : List (Nat × Tok)) : List Nat := sizeofScan false live
+
 def isBracket (s : Str) : Bool := s == ['('] || s == [')'] || s == ['['] || s == [']'] || s == ['{'] || s == ['}']
 
 /-- `parseClangAstDump` up to and including the link validation; `file0` = the file the TokenList already knows -/
-def importDump (file0 : Str) (text : Str) : Except Err Imported :=
+def importDump (file0 : Str) (text : Str) (sizeofFixed : Bool := false) : Except Err Imported :=
   match (lineLoop (splitLines text) []).run { files := [file0] } with
   | .error e => .error e
   | .ok (_, st) =>
@@ -1110,7 +1122,10 @@ def importDump (file0 : Str) (text : Str) : Except Err Imported :=
       | .error e => .error e
       | .ok store =>
         let enumName := fun o => (st.events.toList.findSome? fun e => match e with | .enumDecl _ t o' => if o' = o then some t else none | _ => none)
-        .ok { toks := st.toks, store := store, attrs := st.data.attrs, varDef := st.data.varDef, funcs := st.funcs,
+        let live := (st.toks.toList.zipIdx.map fun (t, i) => (i, t)).filter (fun it => !it.2.deleted)
+        let cleared := if sizeofFixed then [] else sizeofCleared live
+        let attrs := fun i => if cleared.contains i then { st.data.attrs i with var := none, func := none, enumr := none } else st.data.attrs i
+        .ok { toks := st.toks, store := store, attrs := attrs, varDef := st.data.varDef, funcs := st.funcs,
               ops := st.ops.toList, events := st.events.toList, enumName := enumName }
 
 end Cppcheck.ClangDeclMap
